@@ -12,10 +12,11 @@ struct Case {
   std::vector<Entry> entries;
   std::vector<std::string> probes;  // extra keys to look up (absent, prefixes, extensions)
   std::vector<Entry> entries2;      // a second block, written into the storage the first one was read from (may be empty: not done)
-  template <class A> void io(A &a) { a(entries)(probes); if (a.more()) a(entries2); }   // entries2: optional trailing field
+  std::vector<std::string> bare;    // per entry of 'entries': a string without '=' that follows a value-less key, as rSpecial(x) makes (":special\0x\0"); "" = none
+  template <class A> void io(A &a) { a(entries)(probes); if (a.more()) a(entries2); if (a.more()) a(bare); }   // optional trailing fields
   std::string describe() const {
     std::string d = "block=\"";
-    for (auto &e : entries) { d += ":" + vf::esc(e.key) + "\\0"; if (e.has_value) d += "=" + vf::esc(e.value) + "\\0"; }
+    for (size_t i = 0; i < entries.size(); i++) { auto &e = entries[i]; d += ":" + vf::esc(e.key) + "\\0"; if (e.has_value) d += "=" + vf::esc(e.value) + "\\0"; else if (i < bare.size() && !bare[i].empty()) d += vf::esc(bare[i]) + "\\0"; }
     d += "\" probes=[";
     for (auto &p : probes) d += "\"" + vf::esc(p) + "\" ";
     d += "]";
@@ -54,6 +55,11 @@ Case vf_generate() {
   int n = vf::sized<int>(1, 8);
   gen_entries(c.entries, n);
   if (vf::chance(40)) gen_entries(c.entries2, vf::sized<int>(1, 8));
+  if (vf::chance(30)) {
+    c.bare.assign(c.entries.size(), "");
+    for (size_t i = 0; i < c.entries.size(); i++)
+      if (!c.entries[i].has_value && vf::chance(60)) c.bare[i] = std::string(1, "ab 01"[vf::pickn(5)]) + vf::strover(AL, 0, 4);
+  }
   int np = vf::pick<int>(0, 4);
   for (int i = 0; i < np; i++) {
     const std::string &k = c.entries[(size_t)vf::pickn(n)].key;
@@ -67,20 +73,22 @@ Case vf_generate() {
   return c;
 }
 
-static std::string block_of(const std::vector<Entry> &entries) {
+static std::string block_of(const std::vector<Entry> &entries, const std::vector<std::string> *bare = nullptr) {
   std::string block;
-  for (auto &e : entries) {
+  for (size_t i = 0; i < entries.size(); i++) {
+    auto &e = entries[i];
     block += ":" + e.key;
     block.push_back('\0');
     if (e.has_value) { block += "=" + e.value; block.push_back('\0'); }
+    else if (bare && i < bare->size() && !(*bare)[i].empty()) { block += (*bare)[i]; block.push_back('\0'); }
   }
   block.push_back('\0');  // terminator (the implicit NUL of the string literal the macros produce)
   return block;
 }
 // storage: where the block is placed (NULL: an exact-size heap block of its own)
-static std::string run_block(const std::vector<Entry> &entries, const std::vector<std::string> &probes, char *storage) {
+static std::string run_block(const std::vector<Entry> &entries, const std::vector<std::string> &probes, char *storage, const std::vector<std::string> *bare = nullptr) {
   struct { const std::vector<Entry> &entries; const std::vector<std::string> &probes; } c{entries, probes};
-  std::string block = block_of(entries);
+  std::string block = block_of(entries, bare);
   std::unique_ptr<char[]> hb(storage ? nullptr : new char[block.size()]);
   char *at = storage ? storage : hb.get();
   memcpy(at, block.data(), block.size());
@@ -126,17 +134,18 @@ static std::string run_block(const std::vector<Entry> &entries, const std::vecto
 }
 
 std::string vf_run(const Case &c, vf::Ctx &ctx) {
-  std::string r = run_block(c.entries, c.probes, nullptr);
+  std::string r = run_block(c.entries, c.probes, nullptr, &c.bare);
   if (!r.empty()) return r;
+  for (auto &b : c.bare) if (!b.empty()) { ctx.count("class.key_followed_by_bare_string"); break; }
   if (!c.entries2.empty()) {
     // metadata is plain bytes: a second block placed where the first one was read from reads back as itself
-    std::string b1 = block_of(c.entries), b2 = block_of(c.entries2);
+    std::string b1 = block_of(c.entries, &c.bare), b2 = block_of(c.entries2);
     std::unique_ptr<char[]> st(new char[std::max(b1.size(), b2.size())]);
-    if (!(r = run_block(c.entries, c.probes, st.get())).empty()) return "first block in shared storage: " + r;
+    if (!(r = run_block(c.entries, c.probes, st.get(), &c.bare)).empty()) return "first block in shared storage: " + r;
     if (!(r = run_block(c.entries2, c.probes, st.get())).empty()) return "second block in the same storage: " + r;
     ctx.count("class.second_block_in_same_storage");
   }
-  std::string block = block_of(c.entries);
+  std::string block = block_of(c.entries, &c.bare);
 
   bool special = false, repeated = false, valueless = false;
   for (size_t a = 0; a < c.entries.size(); a++) {
